@@ -262,6 +262,17 @@ fn rng_for(kind: &str, seed: u64) -> Box<dyn RngCore> {
 
 pub fn exec_prog(prog: &str) -> String {
     let mut regs: HashMap<String, Element> = HashMap::new();
+    run_prog(prog, &mut regs)
+}
+
+/// run a program and return the element left in register `E`
+pub fn eval_elem(prog: &str) -> Result<Element, String> {
+    let mut regs: HashMap<String, Element> = HashMap::new();
+    let out = run_prog(&prog.replace('/', ";").replace('~', "="), &mut regs);
+    regs.get("E").copied().ok_or_else(|| format!("bad-elem:{}", out))
+}
+
+fn run_prog(prog: &str, regs: &mut HashMap<String, Element>) -> String {
     let mut outs: Vec<String> = Vec::new();
     macro_rules! fail {
         ($e:expr) => {{
